@@ -245,6 +245,19 @@ def ord9_rotation(P, R, L, rule="ORD-9"):
         ok = any(o.kind == "call" and o.name == "arc_swap::ArcSwapAny::swap" for o in os_)
         R.check(rule, MAKE_ROOM + "|imm-is-swapped-out-memtable", ok, "%s:%s" % (b.file, st["line"]),
                 "maybe_immutable_memtable receives the memtable that memtable_ptr.swap returned", "origins %s" % sorted({repr(o) for o in os_})[:5])
+    # a rotation happens only when no immutable memtable is pending (otherwise the pending one is overwritten: its
+    # entries become unreadable until its flush installs, and the flush then drops the wrong memtable)
+    none_edges = []
+    for c in b.calls():
+        if b.is_cleanup(c.bb) or c.name not in ("std::option::Option::is_some", "std::option::Option::is_none"):
+            continue
+        if any("maybe_immutable_memtable" in o.path for o in origins(b, c.args[0])):
+            for t in bool_tests(b, c.dest["l"]):
+                none_edges += t.err_edges() if c.name.endswith("is_some") else t.ok_edges()
+    for (bb, i, st) in stores:
+        ok = bool(none_edges) and b.must_pass(bb, through_edges=none_edges)
+        R.check(rule, MAKE_ROOM + "|rotate-only-without-pending-imm", ok, "%s:%s" % (b.file, st["line"]),
+                "maybe_immutable_memtable is overwritten only on the edge where it was observed to be None", "None-edges %s" % none_edges)
     # WAL switch precedes the swap (new writes go to the new WAL, old WAL covers exactly the immutable memtable)
     sw = sites_reaching(P, b, "db::DB::set_wal")
     for w in swaps:
@@ -2692,3 +2705,104 @@ def pair9_levels(P, R, L, rule="PAIR-9"):
         R.check(rule, fn + "|boundary-search-in-own-level", ok, a.where(),
                 "boundary files for a set are searched among the files of that set's own level (level for the compaction set, level+1 for the parent set)",
                 "set of level+%s searched in %s" % (want, lv))
+
+
+# ------------------------------------------------------------------------------------------- GRD-14 manual compaction input truncation
+def grd14_manual_inputs(P, R, L, rule="GRD-14", parts=("level0",)):
+    """VersionSet::compact_range may cut the list of input files short (to bound the work) only for levels > 0: level-0
+    files overlap each other, so dropping one of them while compacting another moves newer data below older data."""
+    fn = "versioning::version_set::VersionSet::compact_range"
+    b = P.body(fn)
+    if b is None:
+        return R.missing_anchor(rule, fn)
+    R.analysed(b)
+    tr = [c for c in b.calls() if c.name == "std::vec::Vec::truncate" and not b.is_cleanup(c.bb)]
+    is_level = lambda os_: any(o.kind == "param" and o.name == 2 and not o.path for o in os_)
+    zero = lambda os_: any(o.kind == "const" and o.name == "0" for o in os_)
+    edges = []
+    for c in comparisons(b):
+        edges += c.edges_where("gt", is_level, zero, exact=True)
+        edges += c.edges_where("ne", is_level, zero, exact=True)
+    ok = all(b.must_pass(t.bb, through_edges=edges) for t in tr) and (bool(edges) or not tr)
+    if "nonempty" in parts:
+        lens_ok, det = True, []
+        for t in tr:
+            os_ = origins(b, t.args[1])
+            good = bool(os_) and all(o.kind == "binop" and o.name in ("Add", "AddWithOverflow", "AddUnchecked") and o.extra and any(
+                x["k"] == "const" and (x.get("val") or "0").isdigit() and int(x["val"]) >= 1 for x in o.extra[1]["rv"]["ops"]) for o in os_)
+            if not good:
+                lens_ok = False
+                det.append("line %s: length is %s" % (t.line, [(o.kind, o.name) for o in os_]))
+        R.check(rule, fn + "|truncation-keeps-at-least-one-file", lens_ok, where(b),
+                "the truncated input list keeps the file that crossed the size limit (length = index + 1, never 0): an empty input list "
+                "trips the non-empty assertion on the compaction thread", "; ".join(det) or "truncate sites %d" % len(tr))
+    if "level0" not in parts:
+        return
+    R.check(rule, fn + "|truncate-only-above-level-0", ok, where(b),
+            "the input list of a manual compaction is truncated only on the edge `level > 0`", "truncate sites %d, guard edges %d" % (len(tr), len(edges)))
+
+
+# ------------------------------------------------------------------------------------------- PAIR-11 a (re)loaded child iterator is positioned before use
+TWO_LEVEL_TABLE = [
+    # (self type, loader, child field, forward helper, backward helper)
+    ("tables::table::TwoLevelIterator", "tables::table::TwoLevelIterator::init_data_block", "maybe_data_block_iter",
+     "skip_empty_data_blocks_forward", "skip_empty_data_blocks_backward"),
+    ("versioning::file_iterators::FilesEntryIterator", "versioning::file_iterators::FilesEntryIterator::set_table_iter", "current_table_iter",
+     "skip_empty_table_files_forward", "skip_empty_table_files_backward"),
+]
+
+
+def pair11_loaded_child_positioned(P, R, L, rule="PAIR-11", types=None):
+    """The loader of a two-level iterator (init_data_block / set_table_iter) keeps the existing child iterator — cursor
+    included — when the block / file did not change.  So after every successful loader call the child must be positioned
+    explicitly (seek / seek_to_first / seek_to_last, matching the direction of the enclosing method) before the method
+    returns or uses it, unless the child is None."""
+    n = 0
+    for (ty, loader, child, fwd, bwd) in TWO_LEVEL_TABLE:
+        if types and ty not in types:
+            continue
+        for p, b in sorted(P.bodies.items()):
+            if p == loader:
+                continue
+            ls = [c for c in b.calls() if c.name == loader and not b.is_cleanup(c.bb)]
+            if not ls:
+                continue
+            R.analysed(b)
+            meth = p.rsplit("::", 1)[1]
+            want = {"seek": "seek", "seek_to_first": "seek_to_first", "seek_to_last": "seek_to_last", fwd: "seek_to_first", bwd: "seek_to_last"}.get(meth)
+            on_child = lambda c: bool(c.args) and any(child in o.path for o in origins(b, c.args[0]))
+            pos = [c for c in b.calls() if not b.is_cleanup(c.bb) and (c.declared_name or "").startswith(ITER_TRAIT + "::seek") and on_child(c)]
+            none_edges = []
+            for c in b.calls():
+                if b.is_cleanup(c.bb) or c.name not in ("std::option::Option::is_some", "std::option::Option::is_none") or not on_child(c):
+                    continue
+                for t in _bt(b, c.dest["l"]):
+                    tg = t.err if c.name.endswith("is_some") else t.ok
+                    none_edges += [(t.bb, x) for x in tg]
+            # `if let Some(it) = self.child.as_mut()` / `match self.child { None => .. }`: discriminant reads of the child option
+            from ..rules import _switches_on_local, switch_target
+            for bb in range(b.n):
+                if b.is_cleanup(bb):
+                    continue
+                for st in b.blocks[bb]["stmts"]:
+                    if st["k"] == "assign" and st["rv"]["k"] == "discr" and not st["pl"]["p"] and \
+                            "Option<" in b.local_ty(st["rv"]["pl"]["l"]) and \
+                            any(child in o.path for o in origins(b, {"k": "copy", "pl": st["rv"]["pl"]})):
+                        for sb in _switches_on_local(b, st["pl"]["l"]):
+                            none_edges.append((sb, switch_target(b.term(sb), 0)))
+            for ld in ls:
+                n += 1
+                starts = [e[1] for t in result_tests(b, ld.dest["l"]) for e in t.ok_edges()] or ([ld.target] if ld.target is not None else [])
+                bad = []
+                others = [x.bb for x in ls]
+                for s in starts:
+                    r = b.reachable(s, removed_nodes=[c.bb for c in pos] + others, removed_edges=none_edges)
+                    if any(x in r for x in b.return_blocks()) and s not in others and s not in [c.bb for c in pos]:
+                        bad.append(s)
+                kinds = sorted({(c.declared_name or "").rsplit("::", 1)[1] for c in pos})
+                ok = bool(pos) and not bad and (want is None or kinds == [want])
+                R.check(rule, "%s|%s-then-position" % (p, loader.rsplit("::", 1)[1]), ok, ld.where(),
+                        "after %s succeeds the (possibly re-used) child iterator is positioned with %s on every path where it is Some" % (
+                            loader.rsplit("::", 1)[1], want or "a seek"),
+                        "positioning calls on the child: %s; %s" % (kinds, "a return is reachable without one" if bad else "all paths covered"))
+    R.floor(rule, "loader call sites of the two-level iterators", n, 5 * len([t for t in TWO_LEVEL_TABLE if not types or t[0] in types]))
